@@ -10,4 +10,14 @@ def noCrash : Handler
                    else if impl == "hang" then some ("-", "termination on finite input")
                    else none }
 
+/-- `recur`: a user function that calls itself without a base case. Miller has no recursion limit:
+the run neither ends nor reports an error within the time allowed (known finding
+unbounded-user-recursion); a Go panic would still be a separate violation. -/
+def recur : Handler
+  | _, impl =>
+    some { model := impl, unmodelled := true,
+           spec := if impl == "panic" then some ("-", "a result or an `mlr:` error, never a Go panic")
+                   else if impl == "hang" then some ("unbounded-user-recursion", "an `mlr:` error (recursion too deep) and a non-zero exit")
+                   else none }
+
 end Driver.C18
